@@ -23,10 +23,15 @@ type HarnessSpec struct {
 	Stubs        []string
 	Outside      []string
 	Assumptions  []string
-	smtlog       string
+	// Redirects maps the full name of a real function (as printed by (*ssa.Function).String(), e.g.
+	// "(*github.com/ava-labs/hypersdk/internal/pebble.Database).Get") to the name of a harness function in the harness
+	// package with the same parameter list (receiver first). Engine only: the native replay runs the real callee.
+	Redirects map[string]string
+	smtlog    string
+	lp        *LoadedPkg
 }
 
-func (h *HarnessSpec) modDir() string { return filepath.Join("/repo", h.Mod) }
+func (h *HarnessSpec) modDir() string { return filepath.Join(repoRoot, h.Mod) }
 
 type PropSpec struct {
 	ID          string
